@@ -313,7 +313,7 @@ fn outcome_json(cfg: &Cfg, o: &Outcome, ty: &str) -> Value {
 /// Control must not depend on sample values: the same history on two different signals must
 /// give identical results, getters and control fields at every step. A difference is reported
 /// as a machinery error (the state merging of E1 would be unsound), not as a verdict.
-fn data_independence_audit(cfg: &Cfg) -> Result<(), String> {
+fn data_independence_audit(cfg: &Cfg, journal: Option<&JournalFile>) -> Result<(), String> {
     use crate::run::{Res, Runner};
     let mut a = Runner::<f64>::new(cfg, Signal::Noise)?;
     let mut b = Runner::<f64>::new(cfg, Signal::Zero)?;
@@ -326,6 +326,9 @@ fn data_independence_audit(cfg: &Cfg) -> Result<(), String> {
     }
     ops.extend([Op::PP(Some(1)), Op::P, Op::Z, Op::P, Op::P]);
     for (i, op) in ops.iter().enumerate() {
+        if let Some(j) = journal {
+            j.write(&cfg.to_json(), &history_text(&ops[..=i]));
+        }
         let (oa, ob) = (a.apply(*op), b.apply(*op));
         if a.dead || b.dead {
             // a crash is C03's business, found by the exploration itself
@@ -426,7 +429,7 @@ impl Check for CtrlCheck {
         for cfg in &item.cfgs {
             if self.id == "C03" {
                 // standing audit of the assumption behind merging on control fingerprints
-                data_independence_audit(cfg)?;
+                data_independence_audit(cfg, journal)?;
             }
             let spec = spec_for(self.id, tier, cfg);
             let cj = cfg.to_json();
